@@ -132,6 +132,19 @@ CHECKS["C09"] = dict(
          "f^-2 is abstracted by an order-reversing positive real.",
     design="DESIGN.md section 4 (C09)")
 
+CHECKS["C11"] = dict(
+    engine="E1 nbsym on the fold kernel (typed IR, exact reals) + E2 pysym on the real Filterbank.fold / TimeSeries.fold callers; z3",
+    technique="symbolic execution of numba's typed IR of fold with symbolic data, delays and block offset (paths forked per bin/sub-integration) against an independently written cell specification; DSE of the real streaming caller with a recording kernel contract; z3 decides; models replayed on the compiled kernel / real files",
+    text="Kernel: for (tsamp, period) from a small alphabet of exactly representable values, symbolic uint8 data, symbolic per-channel delays in "
+         "[0,maxdelay] and (for accel=0) a symbolic block offset, every path of the typed IR is compared cell by cell with an independent "
+         "specification of the documented assignment (sub-integration by time, sub-band by channel, phase bin by the phase formula): each "
+         "(sample, channel) adds its value and 1 to exactly that cell and the hit counts sum to the samples folded. Streaming: the real "
+         "Filterbank.fold runs on the real read_plan over symbolic files; the blocks handed to the kernel are consecutive stream slices, index "
+         "is the absolute offset of each block, the folded samples tile [start, start+nsamps-maxdelay), the same accumulators are divided and "
+         "reshaped. TimeSeries.fold makes the single-channel call on its own data.",
+    note="Exact arithmetic for the phase (float32 evaluation near bin edges outside the claim); small shapes; accel != 0 only with enumerated offsets.",
+    design="DESIGN.md section 4 (C11)")
+
 NOT_APPLICABLE = {}
 
 PENDING = "check not built yet in this round (see DESIGN.md section 8 for the build order); no claim is made"
